@@ -354,6 +354,14 @@ impl LocalPeerService {
             for room in acquere.iter() {
                 rooms.push(*room);
             }
+            #[cfg(feature = "verif")]
+            for room in &rooms {
+                crate::verif_hooks::event(
+                    "cleanup_unlock",
+                    Arc::as_ptr(&acquired_lock) as *const () as usize,
+                    *room,
+                );
+            }
             Self::cleanup(&lock_service, rooms).await;
             let key = remote_verifying_key.lock().await;
             peer_service
@@ -484,6 +492,12 @@ impl LocalPeerService {
             {
                 acquired_lock.lock().await.insert(room);
             }
+            #[cfg(feature = "verif")]
+            crate::verif_hooks::event(
+                "sync_begin",
+                Arc::as_ptr(&acquired_lock) as *const () as usize,
+                room,
+            );
             match Self::synchronise_room(room, &query_service, peer_service, &discret_services)
                 .await
             {
@@ -499,6 +513,12 @@ impl LocalPeerService {
                 }
             };
 
+            #[cfg(feature = "verif")]
+            crate::verif_hooks::event(
+                "sync_end",
+                Arc::as_ptr(&acquired_lock) as *const () as usize,
+                room,
+            );
             lock_service.unlock(room).await;
             acquired_lock.lock().await.remove(&room);
         });
@@ -1080,5 +1100,37 @@ impl LocalPeerService {
         for room in rooms {
             lock_service.unlock(room).await;
         }
+    }
+}
+
+///
+/// verification hooks: public wrappers around the private synchronisation routines
+///
+#[cfg(feature = "verif")]
+impl LocalPeerService {
+    pub async fn verif_synchronise_room(
+        room_id: Uid,
+        query_service: &QueryService,
+        peer_service: PeerConnectionService,
+        discret_services: &DiscretServices,
+    ) -> Result<(), crate::Error> {
+        Self::synchronise_room(room_id, query_service, peer_service, discret_services).await
+    }
+
+    pub async fn verif_process_local_event(
+        msg: LocalEvent,
+        remote_key: &Arc<Mutex<Vec<u8>>>,
+        event_sender: &Sender<RemoteEvent>,
+        remote_rooms: &HashSet<Uid>,
+        inbound_query_service: &InboundQueryService,
+    ) -> Result<(), crate::Error> {
+        Self::process_local_event(
+            msg,
+            remote_key,
+            event_sender,
+            remote_rooms,
+            inbound_query_service,
+        )
+        .await
     }
 }
